@@ -18,6 +18,7 @@ import (
 	"mellium.im/xmpp/jid"
 	"mellium.im/xmpp/stanza"
 	"mellium.im/xmpp/stream"
+	"mellium.im/xmpp/websocket"
 )
 
 // ---- scenario language (mirrors `kind` of coq/C10/Model.v) ----
@@ -43,6 +44,7 @@ type Scenario struct {
 	Mode    string  `json:"mode"`  // forced | free
 	DLSup   bool    `json:"dlsup"` // the transport is a net.Conn (read deadlines work)
 	Recv    bool    `json:"recv,omitempty"`
+	WS      bool    `json:"ws,omitempty"` // a session negotiated with the WebSocket subprotocol (websocket.NewSession)
 	Actors  []Actor `json:"actors"`
 	Choices []int   `json:"choices,omitempty"` // forced: the actor released at every decision point
 	Note    string  `json:"note,omitempty"`
@@ -91,11 +93,16 @@ type rig struct {
 	capDone chan struct{}
 	peerQ   chan []byte
 	peerWG  sync.WaitGroup
+	cancel  context.CancelFunc
 }
 
-const mark = "<!--C10MARK-->"
+const (
+	mark      = "<!--C10MARK-->"
+	startMark = "<!--C10START-->"
+	wsNS      = "urn:ietf:params:xml:ns:xmpp-framing"
+)
 
-func newRig(dlsup, recv bool) (*rig, error) {
+func newRig(dlsup, recv, ws bool) (*rig, error) {
 	a, b := net.Pipe()
 	r := &rig{sess: a, peer: b, capDone: make(chan struct{}), peerQ: make(chan []byte, 64)}
 	hdr := `<stream:stream id="123" version="1.0" xmlns="` + nsClient + `" xmlns:stream="` + stream.NS + `">`
@@ -130,7 +137,26 @@ func newRig(dlsup, recv bool) (*rig, error) {
 		}
 	}()
 	var err error
-	if recv {
+	if ws {
+		// the real negotiation of the WebSocket subprotocol against a scripted
+		// server that offers no features; what it wrote is cut off at startMark
+		var wrw io.ReadWriter = a
+		if !dlsup {
+			wrw = plainRW{Reader: a, Writer: a}
+		}
+		r.peerQ <- []byte(`<open xmlns="` + wsNS + `" version="1.0" id="abc" from="example.net"/><stream:features xmlns:stream="` + stream.NS + `"/>`)
+		// the context is only cancelled when the rig is closed: cancelling it as
+		// soon as NewSession has returned races with the goroutine that maps the
+		// context onto connection deadlines
+		ctx, cancel := context.WithTimeout(context.Background(), 30*time.Second)
+		r.cancel = cancel
+		r.s, err = websocket.NewSession(ctx, jid.MustParse("me@example.net"), wrw)
+		if err == nil {
+			a.SetWriteDeadline(time.Now().Add(10 * time.Second))
+			_, err = a.Write([]byte(startMark))
+			a.SetWriteDeadline(time.Time{})
+		}
+	} else if recv {
 		r.s, err = xmpp.ReceiveSession(context.Background(), rw, 0, readyNegotiator(nsClient))
 	} else {
 		r.s, err = xmpp.NewSession(context.Background(), jid.MustParse("example.net"), jid.MustParse("me@example.net"), rw, 0, readyNegotiator(nsClient))
@@ -150,6 +176,9 @@ func (r *rig) finish() (wire, residual []byte) {
 	r.s.VerifDrainOutput()
 	r.close()
 	all := r.out.Bytes()
+	if i := bytes.Index(all, []byte(startMark)); i >= 0 {
+		all = all[i+len(startMark):]
+	}
 	if i := bytes.Index(all, []byte(mark)); i >= 0 {
 		return append([]byte(nil), all[:i]...), append([]byte(nil), all[i+len(mark):]...)
 	}
@@ -157,6 +186,9 @@ func (r *rig) finish() (wire, residual []byte) {
 }
 
 func (r *rig) close() {
+	if r.cancel != nil {
+		r.cancel()
+	}
 	close(r.peerQ)
 	r.sess.Close()
 	r.peer.Close()
@@ -318,33 +350,45 @@ func (r *rig) sendAPI(api, id string) error {
 
 // peerBytes renders what the peer writes; elem events carry the id that the
 // reply (the handler's, or Serve's default error reply to an IQ) will have.
-func peerBytes(ev *Pev, idx int) []byte {
+func peerBytes(ev *Pev, idx int, ws bool) []byte {
+	// without an enclosing <stream:stream> (WebSocket framing: every frame is a
+	// document of its own) the name spaces are declared on the element
+	sns, cns := "", ""
+	if ws {
+		sns, cns = ` xmlns:stream='`+stream.NS+`'`, ` xmlns='`+nsClient+`'`
+	}
 	switch ev.Type {
 	case "close":
+		if ws {
+			return []byte(`<close xmlns="` + wsNS + `"/>`)
+		}
 		return []byte(`</stream:stream>`)
 	case "error":
 		switch ev.Form {
 		case "text":
-			return []byte(`<stream:error><host-gone xmlns='urn:ietf:params:xml:ns:xmpp-streams'/><text xmlns='urn:ietf:params:xml:ns:xmpp-streams'>bye</text></stream:error>`)
+			return []byte(`<stream:error` + sns + `><host-gone xmlns='urn:ietf:params:xml:ns:xmpp-streams'/><text xmlns='urn:ietf:params:xml:ns:xmpp-streams'>bye</text></stream:error>`)
 		}
-		return []byte(`<stream:error><not-authorized xmlns='urn:ietf:params:xml:ns:xmpp-streams'/></stream:error>`)
+		return []byte(`<stream:error` + sns + `><not-authorized xmlns='urn:ietf:params:xml:ns:xmpp-streams'/></stream:error>`)
 	case "bad":
 		switch ev.Form {
 		case "unknown":
-			return []byte(`<stream:unknown/>`)
+			return []byte(`<stream:unknown` + sns + `/>`)
 		case "procinst":
 			return []byte(`<?x y?>`)
 		case "chardata":
 			return []byte(`x<a/>`)
 		case "restart":
+			if ws {
+				return []byte(`<open xmlns="` + wsNS + `" version="1.0"/>`)
+			}
 			return []byte(`<stream:stream>`)
 		}
 		return []byte(`<!-- c -->`)
 	case "elem":
 		if ev.Form == "iq" {
-			return []byte(`<iq type='get' id='` + elemID(idx) + `'><q xmlns='urn:x'/></iq>`)
+			return []byte(`<iq` + cns + ` type='get' id='` + elemID(idx) + `'><q xmlns='urn:x'/></iq>`)
 		}
-		return []byte(`<message id='p` + fmt.Sprint(idx) + `'><body>hi</body></message>`)
+		return []byte(`<message` + cns + ` id='p` + fmt.Sprint(idx) + `'><body>hi</body></message>`)
 	}
 	return nil
 }
